@@ -214,3 +214,26 @@ Theorem C10_foreign_target_refuted :
     Z.of_N (EvmSend.max_list (EvmSend.confs (Compose_chain.send_events pre)) + 1024) < x_nonce t.
 Proof. exact Compose_chain.foreign_target_refuted. Qed.
 Print Assumptions C10_foreign_target_refuted.
+
+(* The fee kernel of the model is not hand-written knowledge: [c10_cancel_caps_fn] is regenerated on every run
+   from the statements of CancelTx (first cap comparison .. gasFeeCap.Add) by the translator of harness/extract.
+   For all integers it equals the kernel that stands inside the model, so every theorem above is a theorem
+   about the translated source text; a change of a literal, an operator or a comparison in that range makes
+   this file fail to build. *)
+Theorem C10_model_is_translation_of_source_caps : forall fee0 tip0 orig_fee orig_tip,
+  c10_cancel_caps_fn fee0 tip0 orig_fee orig_tip =
+  (let fee1 := if fee0 <=? orig_fee then orig_fee else fee0 in
+   let tip1 := if tip0 <=? orig_tip then orig_tip else tip0 in
+   let tip2 := (tip1 * 110) / 100 in
+   (tip2, fee1 + tip2)).
+Proof. exact Cancel_proofs.caps_translation_literal. Qed.
+Print Assumptions C10_model_is_translation_of_source_caps.
+
+(* Whenever the model hands a replacement to the node, its tip and fee caps are the translated source applied
+   to the original's price and caps and the node's tip suggestion (and there was such a suggestion). *)
+Theorem C10_model_is_translation_of_source_submit : forall c l tip price s b t acc,
+  cancel c l tip price s b = CSubmit t acc ->
+  exists o sug, l = LFound (Some o) true /\ tip = TipOk sug /\
+    (x_tip t, x_fee t) = c10_cancel_caps_fn (o_price o) sug (o_fee o) (o_tip o).
+Proof. exact Cancel_proofs.model_submit_is_translation. Qed.
+Print Assumptions C10_model_is_translation_of_source_submit.
